@@ -3033,7 +3033,7 @@ def gen_Stoch(repo):
              "v0, v1, … in order of first binding (v0 = state, v1 = n_meshes, v2 = n_species, v3 = seed) -/")
     L.append("def gsdBody : List String := %s" % strs(_cpp_stmts(nb)))
     # the scan of the correction loop: `acc += state[IDX]; if (target < acc)` inside `for (int c = 0; c < n_meshes; …)`
-    m = re.search(r"for\s*\(\s*int\s+(v\d+)\s*=\s*0\s*;\s*\1\s*<\s*v1\s*;[^)]*\)\s*\{\s*(v\d+)\s*\+=\s*v0\[([^\]]+)\]\s*;\s*if\s*\(\s*(v\d+)\s*<\s*\2\s*\)", nb)
+    m = re.search(r"for\s*\(\s*int\s+(v\d+)\s*=\s*0\s*;\s*\1\s*<\s*v1\s*;[^)]*\)\s*\{\s*(v\d+)\s*\+=\s*v0\[([^\]]+)\]\s*;\s*if\s*\(\s*(v\d+)\s*[<>=!]+\s*\2\s*\)", nb)
     if not m:
         raise AnchorLost("GenerateStochasticDistribution scan")
     cellv = m.group(1)
